@@ -518,6 +518,8 @@ private:
             ExpressionSyntax*& label,
             ExpressionListSyntax*&);
     void maybeAmbiguateStatement(StatementSyntax*& stmt);
+    void maybeAmbiguateStatementByDeclaration(StatementSyntax*& stmt,
+                                              LexedTokens::IndexType startTkIdx);
     bool checkStatementParse(bool stmtParsed);
 
     //--------//
